@@ -103,3 +103,26 @@ def arg_of(eng, call, target_fi, pname, bound=None):
 def short(node, n=70):
     s = ekey(node).replace("\n", " ")
     return s if len(s) <= n else s[:n - 3] + "..."
+
+
+def expand_locals(cfg, at_ast, expr, depth=3):
+    """Copy of `expr` in which every local name with exactly one reaching definition of the form `name = <value>` is replaced by that value
+    (explaining variables / single-use temporaries are looked through).  `at_ast` is the statement in which expr is evaluated."""
+    import copy
+
+    class _Sub(ast.NodeTransformer):
+        def visit_Name(self, node):
+            if not isinstance(node.ctx, ast.Load) or depth <= 0:
+                return node
+            try:
+                defs = cfg.defs_reaching(at_ast, node.id)
+            except Exception:
+                return node
+            if len(defs) != 1:
+                return node
+            st = cfg.ast_of(list(defs)[0])
+            if isinstance(st, ast.Assign) and len(st.targets) == 1 and isinstance(st.targets[0], ast.Name) and st.targets[0].id == node.id:
+                return expand_locals(cfg, st, st.value, depth - 1)
+            return node
+
+    return _Sub().visit(copy.deepcopy(expr))
